@@ -249,6 +249,7 @@ def analyse(ctx, avh, tier, seed, tag):
     ctx.oblige("diagnosis:python edge diagnosis agrees with the Coq verdicts on every trace", not dis, "; ".join(dis[:5]))
     global LAST_SITES
     LAST_SITES = sites
+    footprint_tie(ctx, avh, insts)
     return insts, verd, diags
 
 
@@ -656,6 +657,174 @@ def coq_confirm_deadlock(run, nthreads, tag):
     text = COQ_HDR + "Eval vm_compute in stuck_after [%s] [%s].\n" % ("; ".join("[" + "; ".join(t) + "]" for t in ts), "; ".join(sch))
     rc, out, dt = lib.coq_eval("locks_replay_" + tag, text, timeout=300)
     return rc == 0 and re.search(r"=\s*true", out) is not None, out[-300:]
+
+
+# ----------------------------------------------------------------------------- footprint tie (coq/Conc/Footprint.v)
+# operation instance -> the calls it makes, as footprint operations over handle names ("@name") / element names ("#Name")
+FOOTPRINT = {
+    "parent/live": [("LRead1", "@ecu1")], "parent/root": [("LRead1", "@root")], "parent/stale": [("LRead1", "@stale")],
+    "character_data/get": [("LRead1", "@cat")], "character_data/content_item_count": [("LRead1", "@p1el")],
+    "attributes/value": [("LRead1", "@p2")], "comment/get": [("LRead1", "@p1")], "comment/set": [("LWrite1", "@p1")],
+    "remove_attribute/present": [("LWrite1", "@p2")], "remove_attribute/absent": [("LWrite1", "@p1")],
+    "character_content_item/insert": [("LWrite1", "@l4")], "character_content_item/insert_badpos": [("LWrite1", "@l4")],
+    "character_content_item/insert_wrongtype": [("LWrite1", "@p1")], "character_content_item/remove": [("LWrite1", "@l4")],
+    "character_content_item/remove_badpos": [("LWrite1", "@l4")],
+    "get_element_by_path/hit": [("LModelRead", "0")], "get_element_by_path/miss": [("LModelRead", "0")],
+    "get_references_to/some": [("LModelRead", "0")], "get_references_to/none": [("LModelRead", "0")],
+    "root_element/get": [("LModelRead", "0"), ("LRead1", "@root")],
+    "file_props/get": [("LFileRead", "0"), ("LFileRead", "0"), ("LFileRead", "0")],
+    "item_name/named": [("LItemName", "@ecu1")],
+    "get_sub_element/byname": [("LGetSubElement", "@p1", "#Elements")],
+    "position/live": [("LPosition", "@ecu2")], "position/stale": [("LPosition", "@stale")],
+    "model/live": [("LModelOf", "@ecu1")], "model/stale": [("LModelOf", "@stale")], "model/deep": [("LModelOf", "@ecudeep")],
+    "file_membership/inherited": [("LFileMembership", "@ecu1")], "file_membership/local": [("LFileMembership", "@p2")],
+    "file_membership/stale": [("LFileMembership", "@stale")],
+    "named_parent/live": [("LNamedParent", "@ref1")], "named_parent/stale": [("LNamedParent", "@stale_sn")],
+    "xml_path/named": [("LXmlPath", "@ref1")], "xml_path/stale": [("LXmlPath", "@stale_sn")],
+    "path/named": [("LPath", "@ecu1")], "path/unnamed": [("LPath", "@p1el")], "path/stale": [("LPath", "@stale")],
+    "path/deep": [("LPath", "@ecudeep")], "path/wrapper_child": [("LPath", "@wchild")],
+    "set_attribute/ok": [("LSetAttribute", "@p1")], "set_attribute/invalid": [("LSetAttribute", "@p1")],
+    "set_attribute/string": [("LSetAttribute", "@p1")], "set_attribute/stale": [("LSetAttribute", "@stale")],
+    "serialize/element": [("LSerialize", "@p1")], "serialize/src_parent": [("LSerialize", "@p1el")], "serialize/stale": [("LSerialize", "@stale")],
+    "set_character_data/plain": [("LSetCharData", "@cat")],
+    "remove_character_data/plain": [("LRemoveCharData", "@cat")], "file_props/model": [("LFileModel", "0")],
+    "item_name/is_identifiable": [("LIsIdentifiable", "@ecu1")], "item_name/is_identifiable_unnamed": [("LIsIdentifiable", "@p1el")],
+    "item_name/is_identifiable_wrapper": [("LIsIdentifiable", "@wrapper")],
+    "item_name/min_version": [("LMinVersion", "@ecu1")], "item_name/min_version_stale": [("LMinVersion", "@stale")],
+}
+FOOTPRINT_CLASSES = {"LRead1": "parent element_name element_type character_data attribute_value comment content_item_count iterator-step",
+                     "LWrite1": "remove_attribute set_comment insert/remove_character_content_item", "LModelRead": "get_element_by_path get_references_to root_element files()-step",
+                     "LFileRead": "ArxmlFile::version filename xml_standalone", "LItemName": "item_name", "LIsIdentifiable": "is_identifiable",
+                     "LGetSubElement": "get_sub_element", "LPosition": "position", "LModelOf": "Element::model", "LFileMembership": "file_membership",
+                     "LMinVersion": "min_version", "LNamedParent": "named_parent", "LXmlPath": "xml_path", "LPath": "path", "LSetAttribute": "set_attribute set_attribute_string",
+                     "LSerialize": "Element::serialize", "LSetCharData": "set_character_data (accepted value; not SHORT-NAME, not a reference)",
+                     "LRemoveCharData": "remove_character_data (not SHORT-NAME, not a reference)", "LFileModel": "ArxmlFile::model"}
+
+
+def parse_worlds(text):
+    worlds, cur = {}, None
+    for line in text.split("\n"):
+        f = line.split()
+        if not f:
+            continue
+        if f[0] == "WORLD":
+            cur = {"nodes": [], "files": [], "models": [], "handles": {}, "en": {}, "const": {}}
+            worlds[f[1]] = cur
+        elif cur is None:
+            continue
+        elif f[0] == "CONST":
+            cur["const"] = dict(x.split("=") for x in f[1:])
+        elif f[0] == "M":
+            cur["models"].append((int(f[1]), int(f[2])))
+        elif f[0] == "F":
+            cur["files"].append((int(f[1]), int(f[2]), int(f[3])))
+        elif f[0] == "N":
+            cur["nodes"].append({"id": int(f[1]), "parent": f[2], "name": int(f[3]), "named": f[4] == "1",
+                                 "files": [] if f[5] == "files=-" else [int(x) for x in f[5][6:].split(",")],
+                                 "content": [] if f[6] == "content=-" else f[6][8:].split(",")})
+        elif f[0] == "H":
+            cur["handles"][f[1]] = int(f[2])
+        elif f[0] == "EN":
+            cur["en"][f[1]] = int(f[2])
+    return worlds
+
+
+def coq_world(wd):
+    nodes = []
+    for n in wd["nodes"]:
+        p = n["parent"]
+        pref = "PNone" if p == "-" else ("PElem %s" % p[1:] if p[0] == "E" else "PModel %s" % p[1:])
+        content = "; ".join("CElem %s" % c[1:] if c[0] == "e" else "CData (DString [])" for c in n["content"])
+        nodes.append("(%d, mk_node (%s) %d %s [%s] [%s])" % (n["id"], pref, n["name"], "true" if n["named"] else "false", content,
+                                                            "; ".join(str(x) for x in n["files"])))
+    files = "; ".join("mkFile 0 [] %d None" % v for _, _, v in sorted(wd["files"]))
+    nxt = max(n["id"] for n in wd["nodes"]) + 1
+    return "mkWorld (nodes_of [%s]) %d [%s] []" % ("; ".join(nodes), nxt, files)
+
+
+def footprint_tie(ctx, avh, insts):
+    """for every enumerated instance of the footprint classes: lock_trace (Conc/Footprint.v) evaluated in Coq on the world of the shape
+    equals the trace logged by hook H2, event by event, modulo the renaming element lock -> 3i, model -> 3m+1, file -> 3f+2"""
+    rc, out, dt = lib.harness_run(avh, ["locks", "world"], timeout=300)
+    worlds = parse_worlds(out) if rc == 0 else {}
+    if not worlds:
+        ctx.oblige("footprint:world dump", False, out[-300:])
+        return
+    import concurrent.futures as cf
+    jobs = {}
+    for i in insts:
+        name = "%s/%s" % (i.cls, i.inst)
+        if name in FOOTPRINT and i.shape in worlds:
+            jobs.setdefault(i.shape, []).append(i)
+
+    def one(shape):
+        wd = worlds[shape]
+        ml = {rel: 3 * k + 1 for k, rel in wd["models"]}
+        fl = {rel: 3 * k + 2 for k, rel, _ in wd["files"]}
+        t = ("From Coq Require Import List NArith.\nFrom AV Require Import Tree.Heap Conc.RwLock Conc.Footprint.\nImport ListNotations.\nOpen Scope N_scope.\n"
+             "Set Printing Depth 1000000.\nSet Printing Width 200.\n")
+        t += "Definition w : world := %s.\n" % coq_world(wd)
+        t += "Definition cf : cfg := cfg_flag %s %s.\n" % (wd["const"]["shortname"], wd["const"]["latest"])
+        keys = []
+        for i in jobs[shape]:
+            lops = []
+            for spec in FOOTPRINT["%s/%s" % (i.cls, i.inst)]:
+                args = []
+                for a in spec[1:]:
+                    if a.startswith("@"):
+                        if a[1:] not in wd["handles"]:
+                            args = None
+                            break
+                        args.append(str(wd["handles"][a[1:]]))
+                    elif a.startswith("#"):
+                        args.append(str(wd["en"][a[1:]]))
+                    else:
+                        args.append(a)
+                if args is None:
+                    lops = None
+                    break
+                lops.append("%s %s" % (spec[0], " ".join(args)))
+            if lops is None:
+                continue
+            evs, two_files = [], False
+            for kind, mode, lock, cls, site, ak in i.events:
+                l = 3 * lock if cls == "element" else (ml.get(lock) if cls == "model" else fl.get(lock))
+                if l is None:
+                    two_files = True
+                    break
+                m = "Rd" if mode == "R" else "Wr"
+                if kind in ("Acq", "TryAcq"):
+                    evs.append("Acq %s %s %d" % ("true" if ak == "B" else "false", m, l))
+                elif kind == "Rel":
+                    evs.append("Rel %d" % l)
+                elif kind in ("TryFail", "SelfDeadlock"):
+                    evs.append("Rel 0")   # never part of a footprint: forces a mismatch
+            if two_files:
+                continue
+            keys.append(i.key)
+            t += 'Goal True. idtac "@@F %d". Abort.\n' % (len(keys) - 1)
+            t += "Eval vm_compute in trace_eqb (thread_trace cf 64 w [%s]) [%s].\n" % ("; ".join(lops), "; ".join(evs))
+        rc, out, dt = lib.coq_eval("footprint_%s" % shape, t, timeout=600)
+        if rc != 0:
+            return shape, None, out[-600:]
+        res = {}
+        for chunk in out.split("@@F ")[1:]:
+            k = int(chunk.split("\n", 1)[0])
+            res[keys[k]] = re.search(r"=\s*true", chunk) is not None
+        return shape, res, ""
+
+    total, bad, errs = 0, [], []
+    with cf.ThreadPoolExecutor(max_workers=4) as ex:
+        for shape, res, err in ex.map(one, sorted(jobs)):
+            if res is None:
+                errs.append("%s: %s" % (shape, err))
+                continue
+            total += len(res)
+            bad += [k for k, v in res.items() if not v]
+    ctx.oblige("footprint:lock_trace (Conc/Footprint.v, evaluated in Coq on the world of each shape) equals the trace logged by hook H2, event by event, "
+               "for %d instances of the footprint classes" % total, not bad and not errs and total > 0, "; ".join(errs[:2] + sorted(bad)[:8]))
+    ctx.coverage["footprint_instances_tied"] = total
+    ctx.coverage["footprint_classes"] = FOOTPRINT_CLASSES
 
 
 if __name__ == "__main__":
